@@ -1748,7 +1748,7 @@ def df_unslice(df, ub):
     n = df.shape[1] if is_df(df) else 1
     res = dictable(ub = ub, lb = [None] + ub[:-1], i = range(len(ub)))
     res = res(ts = lambda lb, ub: df_slice(df, lb, ub, '(]'))
-    res = res(rs = lambda i, ts: dictable(u = ub[i: i+n], j = range(len(ub[i: i+n])))(ts = lambda j: ts[j]))
+    res = res(rs = lambda i, ts: dictable(u = ub[i: i+n], j = range(len(ub[i: i+n])))(ts = lambda j: ts[j] if is_df(ts) else ts)) # a single-column stitch is a series
     rs = dictable.concat(res.rs).listby('u').do([pd.concat, nona], 'ts')
     return dict(rs['u', 'ts'])
 
